@@ -35,7 +35,7 @@ def main():
     from vf.runner import unjson, jsonable
     repo.load("cm_colors")
     mod = importlib.import_module("vf.checks.%s" % check_id.lower())
-    gen = mod.LADDER.get(kind)
+    gen = getattr(mod, "LADDER", {}).get(kind)
     fn = mod.REPLAYS[kind]
     if gen is None:
         print(json.dumps({"hit": None, "tried": 0}))
